@@ -106,6 +106,17 @@ def generate(thorough):
         add(mt + " goal g0 = new A(%s);" % ("" if n is None else "n: %d.0" % n), mp, [("goal", "g0", "A", {} if n is None else {"n": lit(n)})])
         add(mt + " goal g0 = new B(%s);" % ("" if n is None else "n: %d.0" % n), mp, [("goal", "g0", "B", {} if n is None else {"n": lit(n)})])
     add(mt + " fact f0 = new A(n: 1.0); goal g0 = new B(n: 1.0);", mp, [("fact", "f0", "A", {"n": lit(1)}), ("goal", "g0", "B", {"n": lit(1)})])
+    # loop temptation: two top-level goals of mutually recursive predicates; the base case of V depends on a global
+    # variable that a costed top-level disjunction decides, so that closing the recursion through unification with a
+    # top-level atom can look cheaper than a well-founded plan
+    for kx in (None, 0, 5):
+        for costs in (None, (20, 30), (30, 20), (1, 2), (2, 1)):
+            for base_cost in (None, 10):
+                for first in (0, 1):
+                    lt = "real n; predicate U() { goal q = new V(); } predicate V(real x) { { goal p = new U(); } or { x <= 3.0; n == 1.0; }%s }" % ("" if base_cost is None else " [%d.0]" % base_cost)
+                    goals = " goal a = new U(); goal c = new V(%s);" % ("" if kx is None else "x: %d.0" % kx)
+                    dj = " { n == 0.0; }%s or { n == 1.0; }%s" % (("", "") if costs is None else (" [%d.0]" % costs[0], " [%d.0]" % costs[1]))
+                    add(lt + (goals + dj if first == 0 else dj + goals), {}, [("goal", "a", "U", {}), ("goal", "c", "V", {} if kx is None else {"x": lit(kx)})])
     # two goals that can unify with each other
     qt = pred_text("Q", *PREDS["Q"])
     for a, b in ((None, None), (lit(1), None), (lit(1), lit(1)), (lit(1), lit(2))):
